@@ -327,6 +327,9 @@ func checkCase(c Case, e *env.Env) (*hx.Violation, info) {
 				if int64(sd[k].T) != int64(vd[k].T)*1000/vts || int64(sd[k].T+sd[k].D) != int64(vd[k].T+vd[k].D)*1000/vts {
 					return hx.V("mpd-subs-timeline", "subtitle entry %d (t=%d,d=%d) does not mirror video (t=%d,d=%d)/%d in ms", k, sd[k].T, sd[k].D, vd[k].T, vd[k].D, vts), inf
 				}
+				if sd[k].Nr != vd[k].Nr {
+					return hx.V("mpd-subs-number", "subtitle entry %d (t=%d) has number %d, the video entry it mirrors has number %d", k, sd[k].T, sd[k].Nr, vd[k].Nr), inf
+				}
 			}
 		}
 	}
